@@ -901,6 +901,47 @@ def check_elements(ctx):
         ctx.correspond("elements", pairs)
 
 
+def check_gps_floats(ctx):
+    """trusted-base cross-check: the float step of GPS Info is exact on every raw value tried (the
+    expressions are the ones of full_link_control.py), and a sample goes through the real PDU"""
+    from okdmr.dmrlib.etsi.layer2.pdu.full_link_control import FullLinkControl
+    from okdmr.dmrlib.etsi.layer2.elements.flcos import FLCOs
+    from okdmr.dmrlib.etsi.layer2.elements.feature_set_ids import FeatureSetIDs
+    from okdmr.dmrlib.etsi.layer3.elements.position_error import PositionError
+
+    for w, step_expr in ((25, 360 / 2**25), (24, 180 / 2**24)):
+        lo, hi = -(1 << (w - 1)), (1 << (w - 1)) - 1
+        ns = {0, 1, -1, lo, lo + 1, hi, hi - 1} | {1 << i for i in range(w - 1)} | {-(1 << i) for i in range(w - 1)}
+        ns |= {(1 << i) - 1 for i in range(w)} | {-(1 << i) + 1 for i in range(w)}
+        ns = {n for n in ns if lo <= n <= hi}
+        ns |= {ctx.rng.randrange(lo, hi + 1) for _ in range(ctx.budget(20000, 1 << 18))}
+        bad = None
+        for n in ns:
+            x = step_expr * n  # from_bits
+            back = int(x / step_expr)  # as_bits
+            if back != n:
+                bad = (n, back)
+                break
+        ctx.case(("gps-float", w, len(ns)))
+        ctx.count(f"gps-float:{w}", len(ns))
+        if bad:
+            ctx.fail("gps-float-inexact", {"kind": "flc", "mode": "gps-float", "width": w, "raw": bad[0]},
+                     f"GPS Info {w}-bit raw value {bad[0]} comes back as {bad[1]} through the float step", expected=bad[0], actual=bad[1])
+    for _ in range(ctx.budget(300, 20000)):
+        lon = ctx.rng.randrange(-(1 << 24), 1 << 24)
+        lat = ctx.rng.randrange(-(1 << 23), 1 << 23)
+        p = FullLinkControl(protect_flag=0, flco=FLCOs.GPSInfo, fid=FeatureSetIDs.StandardizedFID, crc=bitarray("0" * 24),
+                            position_error=PositionError(lon % 8), longitude=lon * (360 / 2**25), latitude=lat * (180 / 2**24))
+        bits = p.as_bits()
+        q = FullLinkControl.from_bits(bits)
+        ctx.case(("gps-pdu", lon, lat))
+        if ba2int(bits[23:48], signed=True) != lon or ba2int(bits[48:72], signed=True) != lat or q.longitude != p.longitude or q.latitude != p.latitude:
+            ctx.fail("gps-roundtrip", {"kind": "flc", "variant": "gpsInfo", "mode": "fields",
+                                       "fields": {"pf": 0, "fid": 0, "crc": "0" * 24, "pe": lon % 8, "lon": lon, "lat": lat}},
+                     "GPS Info coordinates do not survive as_bits / from_bits", expected=[lon, lat],
+                     actual=[ba2int(bits[23:48], signed=True), ba2int(bits[48:72], signed=True)])
+
+
 # ------------------------------------------------------------------------------------------------
 CORPUS = [
     # repaired defects (KNOWN_FINDINGS.txt, fixed: property=C03 …) — kept so a regression is re-reported
@@ -945,6 +986,7 @@ def run(ctx):
         "in-range field values: WF predicates of Model/Pdu*.lean (e.g. bit_padding 8 bits, blocks_to_follow < 128, no CRC-32 / DBSN on block variants that do not carry them)",
     ]
     check_elements(ctx)
+    check_gps_floats(ctx)
     ks = {k.name: k for k in kinds()}
     # ---- corpus
     for kname, vname, vals in CORPUS:
